@@ -21,11 +21,11 @@ def tuple_expr(parts):
 
 
 def tuple_ty(rel):
-    return tuple_expr([t.rust for t in rel.tys])
+    return tuple_expr([getattr(t, 'concrete', t.rust) for t in rel.tys])
 
 
 def row_parse_expr(rel, rowvar='row'):
-    return tuple_expr(['<%s as vmon::VVal>::vparse(&%s[%d])' % (t.rust, rowvar, i) for i, t in enumerate(rel.tys)])
+    return tuple_expr(['<%s as vmon::VVal>::vparse(&%s[%d])' % (getattr(t, 'concrete', t.rust), rowvar, i) for i, t in enumerate(rel.tys)])
 
 
 def row_show_expr(rel, tvar='t'):
